@@ -417,6 +417,123 @@ def explore_ties(shard):
     return st
 
 
+# ---------------------------------------------------------------- large rule cache
+BIG = dict(quick=(8, 40), thorough=(10, 60))      # (blocks, tags per block): 320 / 600 supertags, pruning_size = tags per block
+BIG_MOD = 37
+
+
+def big_setup(tier):
+    """a grammar over many supertags A0..A(T-1): A_i A_j -> D_((i+j) mod 37) with a label depending on the pair, D_m A_j -> S when A_j is the
+    worst admitted tag of its word. A 3-word sentence admits one block of tags per word (pruning_size = block size): its only derivations
+    end in the worst tag of the third word, so the search looks up every pair of adjacent admitted tags (thousands of new cache entries per
+    sentence) and the entry of the *first* pair it looked up is needed again at the very end, when the tree is read out."""
+    from depccg.types import CombinatorResult
+    NB, BS = BIG[tier]
+    T = NB * BS
+    tags = [S.P(f'A{i}') for i in range(T)]
+    idx = {t: i for i, t in enumerate(tags)}
+    D = [S.P(f'D{m}') for m in range(BIG_MOD)]
+    didx = {d: m for m, d in enumerate(D)}
+    root = S.P('S')
+
+    def binary(x, y):
+        i, j = idx.get(x), idx.get(y)
+        if i is not None and j is not None:
+            k = (i * 7 + j) % 5
+            return [CombinatorResult(D[(i + j) % BIG_MOD], f'l{k}', f'<l{k}>', True)]
+        m = didx.get(x)
+        if m is not None and j is not None and j % BS == BS - 1:
+            k = (m + j) % 3
+            return [CombinatorResult(root, f'top{k}', f'<top{k}>', True)]
+        return []
+
+    def sentence(blocks):
+        tag = np.full((3, T), -64.0, dtype=np.float32)
+        for w, blk in enumerate(blocks):
+            for r in range(BS):
+                tag[w, blk * BS + r] = -0.125 * r
+        return tag, np.full((3, 4), -1.0, dtype=np.float32)
+    used, sents = set(), []
+    for a in range(NB):
+        for b in range(NB):
+            for c in range(NB):
+                if (a, b) not in used and (b, c) not in used and (a, b) != (b, c):
+                    used.update([(a, b), (b, c)])
+                    sents.append((a, b, c))
+                    break
+    return tags, root, binary, sentence, sents, BS
+
+
+def big_run(tier, order):
+    parsing, rt = boot.load_parsing()
+    tags, root, binary, sentence, sents, BS = big_setup(tier)
+    ss = [sents[i] for i in order]
+    docs = [S.make_doc(3) for _ in ss]
+    srs = [S.ScoringResult(*sentence(b)) for b in ss]
+    return parsing.run(docs, srs, list(tags), [root], binary, lambda x: [], processes=1, max_chunk_size=10 ** 9, unary_penalty=0.5,
+                       use_beta=False, pruning_size=BS, nbest=1, max_step=10 ** 7)
+
+
+def explore_big(shard):
+    """batch histories that grow one rule cache through every size from 0 to ~10^5 (quick) / ~4*10^5 (thorough) entries while sentences
+    are being parsed; every sentence must come out exactly as when it is parsed alone"""
+    tier, which = shard
+    st = core.Stats()
+    _, rt = boot.load_parsing()
+    import depccg._parsing as mod
+    sizes = []
+    if not getattr(mod, '_verif_sized', False):
+        orig = mod.parse_sentence
+
+        def wrapped(*a):
+            r = orig(*a)
+            _state_log.append(rt._lib.verif_cache_size(a[9].ptr) if hasattr(a[9], 'ptr') else -1)
+            return r
+        mod.parse_sentence = wrapped
+        mod._verif_sized = True
+    n = len(big_setup(tier)[4])
+    orders = {'forward': list(range(n)), 'reversed': list(range(n))[::-1], 'rotated': list(range(n // 3, n)) + list(range(n // 3)),
+              'interleaved': list(range(0, n, 2)) + list(range(1, n, 2))}
+    order = orders[which]
+    solo = {}
+    for i in order:
+        try:
+            solo[i] = canon_result(big_run(tier, [i])[0])
+        except Exception as e:
+            if boot.harness_limit(e):
+                raise boot.HarnessError(f'the emulation of parsing.pyx cannot express what the file does: {e!r}')
+            st.violation('big/solo_raised', f'a one-sentence batch over the large tag inventory raised {e!r}', engine='big', tier=tier, order=[i])
+            return st
+        if solo[i] == 'FAILED':
+            raise boot.HarnessError('the large-inventory sentences are designed to have a parse')
+    _state_log.clear()
+    base = dict(engine='big', tier=tier, order=order, which=which)
+    try:
+        res = big_run(tier, order)
+    except Exception as e:
+        if boot.harness_limit(e):
+            raise boot.HarnessError(f'the emulation of parsing.pyx cannot express what the file does: {e!r}')
+        st.violation('big/raised', f'a batch of {len(order)} parseable sentences raised {e!r} (each of them parses alone)', **base)
+        return st
+    sizes = [z for z in _state_log if isinstance(z, int)]
+    st.count('executions', 1 + len(order))
+    st.count('transitions', len(order))
+    st.count('big_cache_entries_max', 0)
+    st.add('big_cache_sizes', (which, max(sizes) if sizes else -1))
+    if len(res) != len(order):
+        st.violation('big/length', f'{len(res)} result lists for {len(order)} sentences', **base)
+        return st
+    for pos, i in enumerate(order):
+        got = canon_result(res[pos])
+        if got != solo[i]:
+            st.violation('big/differs', f'position {pos}: {str(got)[:160]} but alone it gives {str(solo[i])[:160]} (rule cache had {sizes[pos - 1] if pos and len(sizes) > pos else 0} '
+                         f'entries before this sentence and {sizes[pos] if len(sizes) > pos else "?"} after)', position=pos, **base)
+        else:
+            st.count('nontrivial')
+    st.observe('big', which, [canon_result(r) for r in res][:3], sizes)
+    return st
+
+
 def shape_faults(st, max_step):
     parsing, rt = boot.load_parsing()
     import depccg._parsing as mod
@@ -529,6 +646,7 @@ def check(tier, seed):
     st = core.pmap(explore_batches, shards)
     SCENARIO[:] = ['g3']
     st.merge(core.pmap(explore_ties, [(nb, lo, lo + 8) for nb in (1, 2) for lo in range(0, 64, 8)]))
+    st.merge(core.pmap(explore_big, [(tier, w) for w in ('forward', 'reversed', 'rotated', 'interleaved')]))
     SCENARIO[:] = ['g3']
     shape_faults(st, max_step)
     if not os.environ.get('VERIF_NO_REAL_POOL'):
@@ -538,11 +656,11 @@ def check(tier, seed):
                              'step budget exhausted, one word): every sequence of length <=3 with repetition and every permutation of subsets of size 4 (5 thorough) x processes {1,2,3,4} x max_chunk_size {0,1,2,20} '
                              'x every completion schedule of the chunk tasks (ordered set partitions between polls) on a virtual pool, depccg/parsing.py unmodified; result[i] must equal the solo '
                              'result of sentence i. Shape faults: every +-1 deviation of every array dimension / token count / list length / category list at every batch position must raise '
-                             'before any parse_sentence call. states = distinct (rule-cache key set, category table) at sentence boundaries; non-trivial = batch mixing parseable and failing sentences'),
+                             'before any parse_sentence call. Large rule cache: 32 (50 thorough) three-word sentences over 320 (600) supertags in one batch, four orders, the cache growing through every size up to ~1.2*10^5 (4.5*10^5) entries inside sentences that need their first entry again at the end; each must equal its solo result. states = distinct (rule-cache key set, category table) at sentence boundaries; non-trivial = batch mixing parseable and failing sentences'),
                        nontrivial=st.c['nontrivial'], evaluations=st.c['executions'] + st.c['fault_cases'],
                        states=len(st.sets['states']), transitions=st.c['transitions'], traces=st.c['executions'],
                        exhaustive=True,
-                       extra=dict(max_step=max_step, pops_unbounded=pops, schedules_distinct=len(st.sets['schedules']), batches=len(bs),
+                       extra=dict(large_cache_entries_reached=sorted(st.sets.get('big_cache_sizes', [])), max_step=max_step, pops_unbounded=pops, schedules_distinct=len(st.sets['schedules']), batches=len(bs),
                                   quick_tier_k4_schedules='all-at-once + the 24 total orders (75 ordered partitions in thorough)' if tier == 'quick' else 'all 75'),
                        assumptions=['all chunk tasks run in one interpreter (maximum state sharing); real fork Pool only as conformance of the virtual pool',
                                     'transliterated parsing.pyx'])
@@ -559,6 +677,11 @@ def replay(rec):
         pats = list(itertools.product(range(4), repeat=3))
         k = pats.index(tuple(rec['heads']))
         st = explore_ties((rec['nbest'], k, k + 1))
+        for kk, v in st.viol.items():
+            print('REPRODUCED', kk, v[0]['what'][:400])
+        return 1 if st.viol else 0
+    if rec.get('engine') == 'big':
+        st = explore_big((rec['tier'], rec['which']))
         for kk, v in st.viol.items():
             print('REPRODUCED', kk, v[0]['what'][:400])
         return 1 if st.viol else 0
